@@ -13,13 +13,6 @@ mod verif_c17_state {
 
     //@include ../_shared/kani_stubs.rs
 
-    /// stub for `tokio::sync::Notify::notify_waiters` (called by `SetOnce::set` after the value is stored):
-    /// no task waits on the SetOnce inside a harness, so waking "all waiters" has no effect on the state under
-    /// contract.  (Its real body walks an intrusive waiter list and calls wakers through raw vtables; CBMC
-    /// resolves those calls to every `fn(*const ())` of the crate graph -- minutes per call.)
-    #[allow(dead_code)]
-    fn noop_notify_waiters(_n: &tokio::sync::Notify) {}
-
     const MAPPED: [QlogConnectionState; 9] = [
         QlogConnectionState::Base(BaseConnectionStates::Attempted),
         QlogConnectionState::Base(BaseConnectionStates::HandshakeStarted),
@@ -118,7 +111,6 @@ mod verif_c17_state {
     #[kani::proof]
     #[kani::unwind(2)]
     #[kani::stub(qevent::telemetry::macro_support::build_and_emit_event, noop_emit)]
-    #[kani::stub(tokio::sync::Notify::notify_waiters, noop_notify_waiters)]
     fn update_contract() {
         let code: u8 = kani::any();
         kani::assume(code <= 9);
@@ -141,21 +133,50 @@ mod verif_c17_state {
         kani::cover!(r.is_some() && code2 == 9, "C17.state.update.reach_closed");
     }
 
-    /// contract of `enter_closing(e)` from any state satisfying the invariant: advances to Closing and fixes
-    /// the terminating error iff the connection was not yet closing; otherwise NOTHING changes -- the first
-    /// error stays.  (No panic: the `expect("Terminated error already set")` is unreachable under `inv`.)
+    /// the error handed to `enter_closing` (which is generic: `&(impl Into<Error> + Clone)`): a harness type
+    /// whose conversion builds the `Error` directly, so that no `Cow<str>`/`String` clone is on the path
+    /// (CBMC does not get through `Error::clone`'s owned-string branch: > 25 GB).
+    #[derive(Clone)]
+    struct CloseReason(u32);
+    impl From<CloseReason> for Error {
+        fn from(e: CloseReason) -> Error {
+            app_error(e.0)
+        }
+    }
+
+    /// stubs for the two conversions on `enter_draining`'s path (`ccf.clone().into()`): they allocate and copy
+    /// the reason string, which CBMC cannot get through; the life-cycle contract does not depend on the text.
+    fn ccf_to_error_stub(frame: ConnectionCloseFrame) -> Error {
+        let code = match &frame {
+            ConnectionCloseFrame::App(f) => f.error_code() as u32,
+            ConnectionCloseFrame::Quic(_) => 0,
+        };
+        core::mem::forget(frame);
+        app_error(code)
+    }
+    fn ccf_clone_stub(frame: &ConnectionCloseFrame) -> ConnectionCloseFrame {
+        match frame {
+            ConnectionCloseFrame::App(f) => ConnectionCloseFrame::new_app(VarInt::from_u32(f.error_code() as u32), ""),
+            ConnectionCloseFrame::Quic(_) => ConnectionCloseFrame::new_app(VarInt::from_u32(0), ""),
+        }
+    }
+
+    // The contracts of enter_closing / enter_draining are proved from an arbitrary code and an arbitrary
+    // terminating error satisfying `inv`; the two shapes of the SetOnce (empty / set) are separate harnesses
+    // because a symbolic `Option<Error>` inside the SetOnce makes CBMC run out of memory.
+
+    /// `enter_closing(e)` while NO terminating error is fixed yet (codes 0..=6 and 9): advances to Closing and
+    /// fixes the error iff the connection was not closed; no panic (`expect` unreachable).
     #[kani::proof]
     #[kani::unwind(2)]
     #[kani::stub(qevent::telemetry::macro_support::build_and_emit_event, noop_emit)]
-    #[kani::stub(tokio::sync::Notify::notify_waiters, noop_notify_waiters)]
-    fn enter_closing_contract() {
+    fn enter_closing_first_error() {
         let code: u8 = kani::any();
-        let term: Option<u32> = kani::any();
-        kani::assume(inv(code, term)); // type invariant of ArcConnState (lemma_invariant_* below)
-        let st = any_conn_state(code, term);
+        kani::assume(inv(code, None)); // type invariant of ArcConnState (lemma_invariant_* below)
+        let st = any_conn_state(code, None);
         let e: u32 = kani::any();
 
-        let r = st.enter_closing(&app_error(e));
+        let r = st.enter_closing(&CloseReason(e));
 
         let code2 = st.state.load(Ordering::Acquire);
         if code < 7 {
@@ -163,26 +184,48 @@ mod verif_c17_state {
             assert!(terminated_code(&st) == Some(e as u64), "C17.state.enter_closing.fixes_terminating_error");
         } else {
             assert!(r.is_none() && code2 == code, "C17.state.enter_closing.no_effect_once_closing");
-            assert!(terminated_code(&st) == term.map(|x| x as u64), "C17.state.enter_closing.first_error_stays");
+            assert!(terminated_code(&st).is_none(), "C17.state.enter_closing.first_error_stays");
         }
-        let term2 = terminated_code(&st).map(|x| x as u32);
-        assert!(inv(code2, term2), "C17.state.inv.preserved_by_enter_closing");
+        assert!(inv(code2, terminated_code(&st).map(|x| x as u32)), "C17.state.inv.preserved_by_enter_closing");
         kani::cover!(code < 7, "C17.state.enter_closing.reach_first_close");
-        kani::cover!(code == 7 && term.is_some_and(|t| t != e), "C17.state.enter_closing.reach_second_close_other_error");
-        kani::cover!(code == 9 && term.is_none(), "C17.state.enter_closing.reach_after_closed_without_error");
+        kani::cover!(code == 9, "C17.state.enter_closing.reach_after_closed_without_error");
+        core::mem::forget(st); // skip the drop glue (not under contract)
     }
 
-    /// contract of `enter_draining(ccf)`: advances to Draining iff not yet draining/closed; the terminating
-    /// error is taken from the peer's frame only if none was fixed before (closing -> draining keeps it).
+    /// `enter_closing(e)` while a terminating error IS fixed (codes 7..=9): nothing changes, the first error
+    /// stays.
     #[kani::proof]
     #[kani::unwind(2)]
     #[kani::stub(qevent::telemetry::macro_support::build_and_emit_event, noop_emit)]
-    #[kani::stub(tokio::sync::Notify::notify_waiters, noop_notify_waiters)]
-    fn enter_draining_contract() {
+    fn enter_closing_second_error() {
         let code: u8 = kani::any();
-        let term: Option<u32> = kani::any();
-        kani::assume(inv(code, term));
-        let st = any_conn_state(code, term);
+        let t: u32 = kani::any();
+        kani::assume(inv(code, Some(t)));
+        let st = any_conn_state(code, Some(t));
+        let e: u32 = kani::any();
+
+        let r = st.enter_closing(&CloseReason(e));
+
+        let code2 = st.state.load(Ordering::Acquire);
+        assert!(r.is_none() && code2 == code, "C17.state.enter_closing.no_effect_once_closing");
+        assert!(terminated_code(&st) == Some(t as u64), "C17.state.enter_closing.first_error_stays");
+        assert!(inv(code2, Some(t)), "C17.state.inv.preserved_by_enter_closing");
+        kani::cover!(code == 7 && t != e, "C17.state.enter_closing.reach_second_close_other_error");
+        kani::cover!(code == 8, "C17.state.enter_closing.reach_close_while_draining");
+        core::mem::forget(st);
+    }
+
+    /// `enter_draining(ccf)` while no terminating error is fixed: advances to Draining and takes the error
+    /// from the peer's frame iff the connection was not closed.
+    #[kani::proof]
+    #[kani::unwind(2)]
+    #[kani::stub(qevent::telemetry::macro_support::build_and_emit_event, noop_emit)]
+    #[kani::stub(<qbase::error::Error as core::convert::From<qbase::frame::ConnectionCloseFrame>>::from, ccf_to_error_stub)]
+    #[kani::stub(<qbase::frame::ConnectionCloseFrame as core::clone::Clone>::clone, ccf_clone_stub)]
+    fn enter_draining_first_error() {
+        let code: u8 = kani::any();
+        kani::assume(inv(code, None));
+        let st = any_conn_state(code, None);
         let e: u32 = kani::any();
         let ccf = ConnectionCloseFrame::new_app(VarInt::from_u32(e), "");
 
@@ -192,18 +235,45 @@ mod verif_c17_state {
         if code < 7 {
             assert!(r.is_some() && code2 == 8, "C17.state.enter_draining.advances_to_draining");
             assert!(terminated_code(&st) == Some(e as u64), "C17.state.enter_draining.fixes_terminating_error");
-        } else if code == 7 {
-            assert!(r == Some(CLOSING) && code2 == 8, "C17.state.enter_draining.closing_to_draining");
-            assert!(terminated_code(&st) == term.map(|x| x as u64), "C17.state.enter_draining.first_error_stays");
         } else {
             assert!(r.is_none() && code2 == code, "C17.state.enter_draining.no_effect_once_draining");
-            assert!(terminated_code(&st) == term.map(|x| x as u64), "C17.state.enter_draining.first_error_stays");
+            assert!(terminated_code(&st).is_none(), "C17.state.enter_draining.first_error_stays");
         }
-        let term2 = terminated_code(&st).map(|x| x as u32);
-        assert!(inv(code2, term2), "C17.state.inv.preserved_by_enter_draining");
+        assert!(inv(code2, terminated_code(&st).map(|x| x as u32)), "C17.state.inv.preserved_by_enter_draining");
         kani::cover!(code < 7, "C17.state.enter_draining.reach_peer_closes_first");
-        kani::cover!(code == 7 && term.is_some_and(|t| t != e), "C17.state.enter_draining.reach_after_local_close");
+        core::mem::forget(st);
+        core::mem::forget(ccf);
+    }
+
+    /// `enter_draining(ccf)` while a terminating error is fixed: closing -> draining keeps the local error,
+    /// draining / closed: nothing changes.
+    #[kani::proof]
+    #[kani::unwind(2)]
+    #[kani::stub(qevent::telemetry::macro_support::build_and_emit_event, noop_emit)]
+    #[kani::stub(<qbase::error::Error as core::convert::From<qbase::frame::ConnectionCloseFrame>>::from, ccf_to_error_stub)]
+    #[kani::stub(<qbase::frame::ConnectionCloseFrame as core::clone::Clone>::clone, ccf_clone_stub)]
+    fn enter_draining_second_error() {
+        let code: u8 = kani::any();
+        let t: u32 = kani::any();
+        kani::assume(inv(code, Some(t)));
+        let st = any_conn_state(code, Some(t));
+        let e: u32 = kani::any();
+        let ccf = ConnectionCloseFrame::new_app(VarInt::from_u32(e), "");
+
+        let r = st.enter_draining(&ccf);
+
+        let code2 = st.state.load(Ordering::Acquire);
+        if code == 7 {
+            assert!(r == Some(CLOSING) && code2 == 8, "C17.state.enter_draining.closing_to_draining");
+        } else {
+            assert!(r.is_none() && code2 == code, "C17.state.enter_draining.no_effect_once_draining");
+        }
+        assert!(terminated_code(&st) == Some(t as u64), "C17.state.enter_draining.first_error_stays");
+        assert!(inv(code2, Some(t)), "C17.state.inv.preserved_by_enter_draining");
+        kani::cover!(code == 7 && t != e, "C17.state.enter_draining.reach_after_local_close");
         kani::cover!(code == 8, "C17.state.enter_draining.reach_second_peer_close");
+        core::mem::forget(st);
+        core::mem::forget(ccf);
     }
 
     /// the remaining operations keep the invariant: a fresh state satisfies it; `update` to a non-closing
@@ -211,7 +281,6 @@ mod verif_c17_state {
     #[kani::proof]
     #[kani::unwind(2)]
     #[kani::stub(qevent::telemetry::macro_support::build_and_emit_event, noop_emit)]
-    #[kani::stub(tokio::sync::Notify::notify_waiters, noop_notify_waiters)]
     fn lemma_invariant_initial_and_other_ops() {
         let fresh = ArcConnState::new();
         assert!(fresh.state.load(Ordering::Acquire) == 0 && terminated_code(&fresh).is_none() && inv(0, None), "C17.state.inv.holds_initially");
@@ -231,86 +300,5 @@ mod verif_c17_state {
         let code2 = st.state.load(Ordering::Acquire);
         assert!(terminated_code(&st) == term.map(|x| x as u64), "C17.state.inv.sup.error_untouched_by_other_ops");
         assert!(inv(code2, term), "C17.state.inv.preserved_by_other_ops");
-    }
-
-    /// the property clause on a whole history: whatever two closes (local error, then any of local close /
-    /// peer close, or the other way round) happen, the terminating error is the FIRST one and the state
-    /// sequence is increasing.
-    #[kani::proof]
-    #[kani::unwind(2)]
-    #[kani::stub(qevent::telemetry::macro_support::build_and_emit_event, noop_emit)]
-    #[kani::stub(tokio::sync::Notify::notify_waiters, noop_notify_waiters)]
-    fn lemma_terminating_error_fixed_once() {
-        let st = ArcConnState::new();
-        let (e1, e2): (u32, u32) = (kani::any(), kani::any());
-        let first_is_local: bool = kani::any();
-        if first_is_local {
-            assert!(st.enter_closing(&app_error(e1)).is_some(), "C17.state.history.first_close_wins");
-        } else {
-            assert!(st.enter_draining(&ConnectionCloseFrame::new_app(VarInt::from_u32(e1), "")).is_some(), "C17.state.history.first_close_wins");
-        }
-        let c1 = st.state.load(Ordering::Acquire);
-        if kani::any() {
-            let _ = st.enter_closing(&app_error(e2));
-        } else {
-            let _ = st.enter_draining(&ConnectionCloseFrame::new_app(VarInt::from_u32(e2), ""));
-        }
-        let c2 = st.state.load(Ordering::Acquire);
-        assert!(terminated_code(&st) == Some(e1 as u64), "C17.state.history.terminating_error_is_the_first");
-        assert!(c2 >= c1 && c1 >= 7, "C17.state.history.state_only_moves_forward");
-        kani::cover!(e1 != e2 && c2 == 8 && c1 == 7, "C17.state.history.reach_local_then_peer_close");
-    }
-
-    #[derive(Clone)]
-    struct ExpE(u32);
-    impl From<ExpE> for Error {
-        fn from(e: ExpE) -> Error {
-            app_error(e.0)
-        }
-    }
-    #[kani::proof]
-    #[kani::unwind(2)]
-    #[kani::stub(qevent::telemetry::macro_support::build_and_emit_event, noop_emit)]
-    fn exp_f_closing_term_some() {
-        let code: u8 = kani::any();
-        let t: u32 = kani::any();
-        kani::assume(inv(code, Some(t)));
-        let st = any_conn_state(code, Some(t));
-        let e: u32 = kani::any();
-        let r = st.enter_closing(&ExpE(e));
-        assert!(r.is_none(), "C17.state.exp.a");
-        assert!(terminated_code(&st) == Some(t as u64), "C17.state.exp.b");
-        core::mem::forget(st);
-    }
-    #[kani::proof]
-    #[kani::unwind(2)]
-    #[kani::stub(qevent::telemetry::macro_support::build_and_emit_event, noop_emit)]
-    fn exp_g_draining_term_none() {
-        let code: u8 = kani::any();
-        kani::assume(inv(code, None));
-        let st = any_conn_state(code, None);
-        let e: u32 = kani::any();
-        let ccf = ConnectionCloseFrame::new_app(VarInt::from_u32(e), "");
-        let r = st.enter_draining(&ccf);
-        assert!(r.is_some() == (code < 7), "C17.state.exp.a");
-        if code < 7 { assert!(terminated_code(&st) == Some(e as u64), "C17.state.exp.b"); }
-        core::mem::forget(st);
-        core::mem::forget(ccf);
-    }
-    #[kani::proof]
-    #[kani::unwind(2)]
-    #[kani::stub(qevent::telemetry::macro_support::build_and_emit_event, noop_emit)]
-    fn exp_h_draining_term_some() {
-        let code: u8 = kani::any();
-        let t: u32 = kani::any();
-        kani::assume(inv(code, Some(t)));
-        let st = any_conn_state(code, Some(t));
-        let e: u32 = kani::any();
-        let ccf = ConnectionCloseFrame::new_app(VarInt::from_u32(e), "");
-        let r = st.enter_draining(&ccf);
-        assert!(r.is_some() == (code == 7), "C17.state.exp.a");
-        assert!(terminated_code(&st) == Some(t as u64), "C17.state.exp.b");
-        core::mem::forget(st);
-        core::mem::forget(ccf);
     }
 }
